@@ -133,6 +133,10 @@ fn run_api(bytes: &[u8]) -> Result<(usize, usize), (String, String)> {
     let mut s = Session::new(RunCfg::default());
     let n = 200 + rd.below(3000);
     let stride = 1 + rd.below(50);
+    // (drawn here: the loop below uses up the case's bytes)
+    let with_reset = rd.chance(1, 2);
+    let held_count = 1 + rd.below(40);
+    let churn_after = 50 + rd.below(500);
     let mut seen: HashMap<String, usize> = HashMap::new();
     let mut by_addr: HashMap<usize, String> = HashMap::new();
     let vm = s.vm().ok_or(("vm".to_string(), String::new()))?;
@@ -166,17 +170,17 @@ fn run_api(bytes: &[u8]) -> Result<(usize, usize), (String, String)> {
     // same bytes must be the very object the host holds (otherwise the two would compare unequal in a
     // program that is handed both). Only held strings are checked; what the interpreter does with
     // strings nobody holds is its own business.
-    if rd.chance(1, 2) {
-        let k = 1 + rd.below(40);
+    if with_reset {
+        let k = held_count;
         let mut held: Vec<(String, yarel::memory::Root<yarel::object::ObjString>)> = Vec::new();
         for j in 0..k {
-            let text = if rd.flag() { text_of(j * stride) } else { format!("held-{}-é", j) };
+            let text = if j % 2 == 0 { text_of(j * stride) } else { format!("held-{}-é", j) };
             let g = vm.new_gc_obj_string(&text);
             held.push((text, g.as_root()));
         }
         vm.reset();
         // some churn, so that freed memory (if any) is reused
-        for j in 0..(50 + rd.below(500)) {
+        for j in 0..churn_after {
             let _ = vm.new_gc_obj_string(&format!("after-reset-{}", j));
         }
         for (text, root) in &held {
